@@ -208,7 +208,7 @@ var dynamicTable = map[string][]string{
 	"trimLastFourBytesWriter.Write|invoke io.Writer.Write": {"msgWriter.write"},
 	"Conn.write|invoke io.WriteCloser.Write":              {"msgWriterHandle.Write", "msgWriter.Write"}, // the handle forwards statically
 	"Conn.write|invoke io.WriteCloser.Close":              {"msgWriterHandle.Close", "msgWriter.Close"},
-	"netConn.read|invoke io.Reader.Read":                  {"msgReader.Read"},
+	"netConn.read|invoke io.Reader.Read":                  {"msgReaderHandle.Read", "msgReader.Read"},
 	"util.ReaderFunc.Read|dyn":                            {"msgReader.read"},
 	"util.WriterFunc.Write|dyn":                           {"msgWriter.write", "wsjson.write$1"},
 }
@@ -232,8 +232,8 @@ var externalDynamic = map[string]string{
 
 // reentry: calls to standard-library functions that call back into the library synchronously.
 var reentry = map[string][]string{
-	"Conn.Read|io.ReadAll":                     {"msgReader.Read"},
-	"wsjson.read|(*bytes.Buffer).ReadFrom":     {"msgReader.Read"},
+	"Conn.Read|io.ReadAll":                     {"msgReaderHandle.Read", "msgReader.Read"},
+	"wsjson.read|(*bytes.Buffer).ReadFrom":     {"msgReaderHandle.Read", "msgReader.Read"},
 	"wsjson.write|(*json.Encoder).Encode":      {"wsjson.write$1"},
 	"msgWriter.Write|(*flate.Writer).Write":    {"trimLastFourBytesWriter.Write"},
 	"msgWriter.Close|(*flate.Writer).Flush":    {"trimLastFourBytesWriter.Write"},
@@ -249,6 +249,51 @@ func resolveDynamic(p *Program, fn *ssa.Function, ci ssa.CallInstruction) ([]*ss
 		return nil, false
 	}
 	// the site's own function, or (for a helper that is not part of the reference tree) the reference functions it was extracted from
+	// a call through a parameter of function type inside a helper that is not part of the reference tree (a small
+	// higher-order helper such as containsFunc): the callees are the function values its call sites pass, when every
+	// one of them is a closure or a named function of the library
+	if name == "dyn" {
+		if prm, ok := cc.Value.(*ssa.Parameter); ok && !knownFuncs[p.rawName(fn)] && fn.Parent() == nil {
+			idx := -1
+			for i, q := range fn.Params {
+				if q == prm {
+					idx = i
+				}
+			}
+			if idx >= 0 {
+				var out []*ssa.Function
+				all := true
+				sites := 0
+				for _, cs := range p.CallSites() {
+					callee := cs.Instr.Common().StaticCallee()
+					if callee == nil || (callee != fn && callee.Origin() != fn && fn.Origin() != callee) {
+						continue
+					}
+					sites++
+					args := cs.Instr.Common().Args
+					if idx >= len(args) {
+						all = false
+						continue
+					}
+					switch a := args[idx].(type) {
+					case *ssa.MakeClosure:
+						if f, ok := a.Fn.(*ssa.Function); ok {
+							out = append(out, f)
+						} else {
+							all = false
+						}
+					case *ssa.Function:
+						out = append(out, a)
+					default:
+						all = false
+					}
+				}
+				if all && sites > 0 {
+					return out, true
+				}
+			}
+		}
+	}
 	for _, owner := range dynOwners(p, fn) {
 		if ts, ok := dynamicTable[owner+"|"+name]; ok {
 			var out []*ssa.Function
